@@ -233,4 +233,9 @@ theorem encodeFile_byteList (h : Header) (frames : List (List Nat)) (hm : ByteLi
   · exact encodeFields_byteList _ (headerFields_wf h hm hb hd)
   · exact flatMap_byteList _ _ fun f hf => encodeFrame_byteList f (hfr f hf)
 
+/-- header used by the non-vacuity examples of `Props/C18.lean` -/
+def exHeader : Header :=
+  { timestampUs := 1790000000000000, model := [108, 101, 112], brand := [102], fps := 9,
+    resX := 160, resY := 120, deviceName := [], deviceID := 7 }
+
 end TR.C18
